@@ -30,6 +30,7 @@ func init() {
 			ruleC08TxComplete(c)
 			ruleListenerRegistered(c, "C08.REGISTER", "AddTxCompleteListener", "txCompleteListeners")
 			ruleC08Actions(c)
+			ruleCtxIdentity(c, "C08.CTXIDENTITY")
 			ruleC08OwnFilter(c)
 		},
 	})
@@ -44,7 +45,9 @@ func init() {
 		Trusted:     []string{"go/types", "golang.org/x/tools/go/ssa v0.29.0"},
 		Rules: func(c *Ctx) {
 			ruleC15ScanFilter(c)
-			ruleC15Valid(c)
+			ruleValidIds(c, "C15.VALID")
+			ruleOwnPresence(c, "C15.PRESENT")
+			ruleC15Inherit(c)
 			ruleC15Route(c)
 			ruleC15DeleteWhere(c)
 			ruleC15Chain(c)
@@ -585,7 +588,7 @@ func noPathFromToAvoiding(from, target ssa.Instruction, allowed func(a, b *ssa.B
 	return !ps.run()
 }
 
-func ruleC15Valid(c *Ctx) {
+func ruleValidIds(c *Ctx, rule string) {
 	p := c.P
 	it := p.SSAFunc(p.Method("boltz", "BaseStore", "IterateValidIds"))
 	c.Analysed(FnName(it))
@@ -608,8 +611,8 @@ func ruleC15Valid(c *Ctx) {
 		}
 	}
 	// the wrapper must be what is returned on the extended edge
-	c.Check(wraps, "C15.VALID", FnName(it)+": extended stores wrap", p.Pos(it.Pos()), "for an extended store the id cursor is wrapped in ValidIdsCursors", "extended stores do not wrap id iteration: parent entities without child data are iterated")
-	c.Check(norm, "C15.VALID", FnName(it)+": initial position", p.Pos(it.Pos()), "the wrapper's first position is checked for child data and advanced if necessary", "the wrapper's initial position is not normalised: the first id may lack child data")
+	c.Check(wraps, rule, FnName(it)+": extended stores wrap", p.Pos(it.Pos()), "for an extended store the id cursor is wrapped in ValidIdsCursors", "extended stores do not wrap id iteration: parent entities without child data are iterated")
+	c.Check(norm, rule, FnName(it)+": initial position", p.Pos(it.Pos()), "the wrapper's first position is checked for child data and advanced if necessary", "the wrapper's initial position is not normalised: the first id may lack child data")
 	// getEntityBucketForLoad
 	gl := p.SSAFunc(p.Method("boltz", "BaseStore", "getEntityBucketForLoad"))
 	c.Analysed(FnName(gl))
@@ -625,8 +628,8 @@ func ruleC15Valid(c *Ctx) {
 			}
 		}
 	}
-	c.Check(okParent, "C15.VALID", FnName(gl), p.Pos(gl.Pos()), "the parent's data is used as fallback only for an extended store", "a non-extended child store falls back to the parent's entity data (plain parent entities would load through the child store)")
-	c.Floor("C15.VALID", 3)
+	c.Check(okParent, rule, FnName(gl), p.Pos(gl.Pos()), "the parent's data is used as fallback only for an extended store", "a non-extended child store falls back to the parent's entity data (plain parent entities would load through the child store)")
+	c.Floor(rule, 3)
 }
 
 func ruleC15Route(c *Ctx) {
@@ -689,15 +692,60 @@ func ruleC15Chain(c *Ctx) { ruleParentChain(c, "C15.CHAIN") }
 
 func ruleParentChain(c *Ctx, rule string) {
 	p := c.P
-	ni := p.SSAFunc(p.Method("boltz", "BaseStore", "newIndexingContext"))
-	c.Analysed(FnName(ni))
-	fi := ComputeFacts(ni)
 	parentFld := p.Field("boltz", "BaseStore", "parent")
-	ok := false
-	for _, call := range callsIn(ni) {
-		if invokeNamed(call, "newIndexingContext") && call.Common().IsInvoke() {
+	icT := p.Named("boltz", "IndexingContext")
+	icParent := p.Field("boltz", "IndexingContext", "Parent")
+	baseStore := p.Named("boltz", "BaseStore")
+	// the constructors of indexing contexts: the BaseStore methods that allocate an IndexingContext and return it
+	// (one function taking the create flag, or one function per kind of operation)
+	var ctors []*ssa.Function
+	for _, fn := range c.prodFuncs("boltz") {
+		if fn.Signature.Recv() == nil || namedOf(fn.Signature.Recv().Type()) == nil || namedOf(fn.Signature.Recv().Type()).Origin() != baseStore {
+			continue
+		}
+		if fn.Signature.Results().Len() != 1 || namedOf(fn.Signature.Results().At(0).Type()) != icT {
+			continue
+		}
+		allocs := false
+		for _, b := range fn.Blocks {
+			for _, in := range b.Instrs {
+				if al, isAl := in.(*ssa.Alloc); isAl && al.Heap && namedOf(al.Type()) == icT {
+					allocs = true
+				}
+			}
+		}
+		if allocs {
+			ctors = append(ctors, fn)
+		}
+	}
+	if len(ctors) == 0 {
+		c.Undecided(rule, "boltz.BaseStore: indexing context constructor", "-", "no BaseStore method allocates and returns an IndexingContext: the chaining rule has nothing to look at")
+	}
+	for _, ni := range ctors {
+		c.Analysed(FnName(ni))
+		fi := ComputeFacts(ni)
+		// the chaining call: the same constructor, invoked on the parent store through its interface, with
+		// every argument handed through unchanged
+		isChain := func(in ssa.Instruction) bool {
+			call, isCall := in.(ssa.CallInstruction)
+			if !isCall || !call.Common().IsInvoke() || call.Common().Method.Name() != ni.Name() {
+				return false
+			}
+			f, _ := loadedField(call.Common().Value)
+			return sameVar(f, parentFld)
+		}
+		ok := false
+		for _, call := range callsIn(ni) {
+			if !isChain(call) {
+				continue
+			}
 			args := call.Common().Args
-			same := len(args) == 4 && args[0] == ssa.Value(ni.Params[1]) && args[1] == ssa.Value(ni.Params[2]) && args[2] == ssa.Value(ni.Params[3]) && args[3] == ssa.Value(ni.Params[4])
+			same := len(args) == len(ni.Params)-1
+			for i := range args {
+				if same && args[i] != ssa.Value(ni.Params[i+1]) {
+					same = false
+				}
+			}
 			if same && fi.HoldsWhere(call.Block(), func(f Fact) bool {
 				ff, _ := loadedField(f.V)
 				return f.Kind == "nonnil" && f.Pol && sameVar(ff, parentFld)
@@ -705,46 +753,41 @@ func ruleParentChain(c *Ctx, rule string) {
 				ok = true
 			}
 		}
-	}
-	why := "the parent store's indexes are not chained with identical arguments/holder"
-	if ok {
-		// on every path: no return without the chaining call unless the store has no parent, and the
-		// parent context ends up in the Parent field of what is returned
-		isChain := func(in ssa.Instruction) bool {
-			call, isCall := in.(ssa.CallInstruction)
-			return isCall && call.Common().IsInvoke() && invokeNamed(call, "newIndexingContext")
-		}
-		if !noPathAvoiding(ni, isChain, func(from, to *ssa.BasicBlock) bool {
-			for f := range fi.edgeFacts(from, to) {
-				ff, _ := loadedField(f.V)
-				if f.Kind == "nonnil" && !f.Pol && sameVar(ff, parentFld) {
-					return true
+		why := "the parent store's indexes are not chained with identical arguments/holder"
+		if ok {
+			// on every path: no return without the chaining call unless the store has no parent, and the
+			// parent context ends up in the Parent field of what is returned
+			if !noPathAvoiding(ni, isChain, func(from, to *ssa.BasicBlock) bool {
+				for f := range fi.edgeFacts(from, to) {
+					ff, _ := loadedField(f.V)
+					if f.Kind == "nonnil" && !f.Pol && sameVar(ff, parentFld) {
+						return true
+					}
 				}
+				return false
+			}) {
+				ok, why = false, "a return is reachable without creating the parent store's indexing context although a parent store exists (e.g. an early return): creates and updates through this store then skip the parent's indexes and constraints"
 			}
-			return false
-		}) {
-			ok, why = false, "a return is reachable without creating the parent store's indexing context although a parent store exists (e.g. an early return): creates and updates through this store then skip the parent's indexes and constraints"
-		}
-		stored := false
-		icParent := p.Field("boltz", "IndexingContext", "Parent")
-		for _, b := range ni.Blocks {
-			for _, in := range b.Instrs {
-				if st, isSt := in.(*ssa.Store); isSt {
-					if f, _ := fieldOfAddr(st.Addr); sameVar(f, icParent) {
-						for _, sv := range phiLeaves(st.Val) {
-							if k, isCall := sv.(*ssa.Call); isCall && isChain(k) {
-								stored = true
+			stored := false
+			for _, b := range ni.Blocks {
+				for _, in := range b.Instrs {
+					if st, isSt := in.(*ssa.Store); isSt {
+						if f, _ := fieldOfAddr(st.Addr); sameVar(f, icParent) {
+							for _, sv := range phiLeaves(st.Val) {
+								if k, isCall := sv.(*ssa.Call); isCall && isChain(k) {
+									stored = true
+								}
 							}
 						}
 					}
 				}
 			}
+			if ok && !stored {
+				ok, why = false, "the parent store's indexing context is created but not stored in the Parent field"
+			}
 		}
-		if ok && !stored {
-			ok, why = false, "the parent store's indexing context is created but not stored in the Parent field"
-		}
+		c.Check(ok, rule, FnName(ni), p.Pos(ni.Pos()), "a parent indexing context is created iff a parent store exists (on every returning path), by the same constructor with the same context, id and error holder, and becomes the Parent of the result", why)
 	}
-	c.Check(ok, rule, FnName(ni), p.Pos(ni.Pos()), "a parent indexing context is created iff a parent store exists (on every returning path), with the same create flag, context, id and error holder, and becomes the Parent of the result", why)
 	// GetParentContext: field forwarding table
 	gp := p.SSAFunc(p.Method("boltz", "PersistContext", "GetParentContext"))
 	c.Analysed(FnName(gp))
@@ -837,28 +880,43 @@ func ruleC16WriteOnce(c *Ctx) {
 			ok := holdsCreate(fi, call.Block())
 			why := ""
 			if !ok {
-				ok = true
-				callers := 0
-				for _, caller := range cg.callers[fn] {
-					cfi := ComputeFacts(caller)
-					for _, k := range callsIn(caller) {
-						if kc, _ := calleeOf(k.Common()); kc == nil || kc != fn.Object() {
-							continue
-						}
-						callers++
-						if !holdsCreate(cfi, k.Block()) {
-							ok = false
-							why = FnName(caller) + " reaches it without ctx.IsCreate being established"
+				// every chain of callers that reaches fn passes an edge on which ctx.IsCreate is established
+				// (helpers between the dispatch and the write — phases, value carriers — are looked through)
+				var reachedOnlyOnCreate func(f *ssa.Function, depth int) (bool, string)
+				reachedOnlyOnCreate = func(f *ssa.Function, depth int) (bool, string) {
+					callers := 0
+					for _, caller := range cg.callers[f] {
+						cfi := factsOf(caller)
+						for _, k := range callsIn(caller) {
+							if kc, _ := calleeOf(k.Common()); kc == nil || kc != f.Object() {
+								continue
+							}
+							callers++
+							if holdsCreate(cfi, k.Block()) {
+								continue
+							}
+							if depth >= 4 {
+								return false, FnName(caller) + " reaches it without ctx.IsCreate being established"
+							}
+							if okUp, whyUp := reachedOnlyOnCreate(caller, depth+1); !okUp {
+								if whyUp == "" {
+									whyUp = FnName(caller) + " reaches it without ctx.IsCreate being established"
+								}
+								return false, whyUp
+							}
 						}
 					}
-				}
-				if callers == 0 && fn.Object() != nil && fn.Object().Exported() {
-					// exported and not called inside the library: it is the documented create-only helper
-					// when its name says so; anything else is a new writer
-					if fn.Name() != "CreateBaseValues" {
-						ok, why = false, "an exported function other than CreateBaseValues writes the system flag"
+					if callers == 0 {
+						// exported and not called inside the library: it is the documented create-only helper
+						// when its name says so; anything else is a new writer
+						if f.Object() != nil && f.Object().Exported() && f.Name() == "CreateBaseValues" {
+							return true, ""
+						}
+						return false, FnName(f) + " reaches it without ctx.IsCreate being established (and is not the documented create-only entry point)"
 					}
+					return true, ""
 				}
+				ok, why = reachedOnlyOnCreate(fn, 0)
 			}
 			c.Check(ok, "C16.WRITEONCE", name+": writes "+fieldName, p.Pos(call.Pos()), "the system flag is written only under ctx.IsCreate (create path)", "the system flag can be written on a path that is not the create path: "+why+" — an update could turn an ordinary entity into a system entity or back")
 		}
@@ -1405,7 +1463,7 @@ func ruleC17Timeline(c *Ctx) {
 		return
 	}
 	c.Analysed(FnName(wr))
-	fi := ComputeFacts(wr)
+	_ = ComputeFacts
 	named := func(call ssa.CallInstruction, method, key string) bool {
 		cal, _ := calleeOf(call.Common())
 		if cal == nil || cal.Name() != method {
@@ -1438,33 +1496,8 @@ func ruleC17Timeline(c *Ctx) {
 	}
 	ok := readReset != nil && readId != nil && setId != nil && setReset != nil
 	why := "the write transaction must read the reset flag and current id, decide, and write the new id and clear the flag — all inside the same transaction; otherwise two callers after a restore can both reset the timeline"
-	if ok {
-		// the write is dominated by a decision derived from the reads made in this same closure
-		guard := fi.HoldsWhere(setId.Block(), func(f Fact) bool { return valueReaches(f.V, readReset, 0) && f.Kind == "true" && f.Pol }) ||
-			fi.HoldsWhere(setId.Block(), func(f Fact) bool {
-				k, isCall := f.V.(*ssa.Call)
-				return f.Kind == "true" && f.Pol && isCall && valueReaches(k, readId, 0)
-			})
-		// `a || b` guard merges at the body: accept when no path reaches the write avoiding both decision edges
-		if !guard {
-			guard = noPathToAvoiding(wr, setId, func(ssa.Instruction) bool { return false }, func(from, to *ssa.BasicBlock) bool {
-				for f := range fi.edgeFacts(from, to) {
-					if f.Kind == "true" && f.Pol {
-						if valueReaches(f.V, readReset, 0) {
-							return true
-						}
-						if k, isCall := f.V.(*ssa.Call); isCall && valueReaches(k, readId, 0) {
-							return true
-						}
-					}
-				}
-				return false
-			})
-		}
-		if !guard {
-			ok = false
-		}
-	}
+	// (that the write is decided from these reads is what the decision table below establishes: its oracle
+	// answers exactly these two read calls of this closure)
 	c.Check(ok, "C17.TIMELINE", name+": read-decide-write in one transaction", p.Pos(fn.Pos()), "reset flag and id are read, the decision is taken and the new id written inside the same write transaction", why)
 	// idF is called exactly once, inside the write closure
 	nId := 0
@@ -1478,32 +1511,97 @@ func ruleC17Timeline(c *Ctx) {
 		}
 	}
 	c.Check(nId == 1, "C17.TIMELINE", name+": one fresh id", p.Pos(fn.Pos()), "the id generator is invoked once per reset", fmt.Sprintf("the id generator is invoked %d times in the write transaction", nId))
-	// forceResetTimeline truth table
-	fr := p.SSAFunc(p.Method("boltz", "TimelineMode", "forceResetTimeline"))
-	c.Analysed(FnName(fr))
+	// the decision, as a complete table over (mode, reset flag stored, id stored): a new id is written (and
+	// the flag cleared) exactly when the flag is set, the mode forces a reset, or the mode initialises an
+	// empty database and no id is stored.  Decided on the write closure as a whole (the mode predicate is
+	// expanded into it), so it does not depend on how the decision is split into helpers.
 	okT, whyT := true, ""
+	undecided := ""
+	modeT := p.Named("boltz", "TimelineMode")
+	rows := 0
 	for _, mode := range []string{"TimelineModeDefault", "TimelineModeInitIfEmpty", "TimelineModeForceReset"} {
 		mv := p.Obj("boltz", mode).(*types.Const).Val()
-		for _, idNil := range []bool{true, false} {
-			res, err := Decide(fr, func(v ssa.Value) (AV, bool) {
-				if v == ssa.Value(fr.Params[0]) {
-					return avConst(mv), true
-				}
-				if v == ssa.Value(fr.Params[1]) {
-					if idNil {
-						return AV{Kind: "nil"}, true
+		for _, reset := range []bool{false, true} {
+			for _, idNil := range []bool{true, false} {
+				rows++
+				oracle := func(v ssa.Value) (AV, bool) {
+					switch x := v.(type) {
+					case *ssa.UnOp:
+						if x.Op == token.MUL {
+							if _, isFV := x.X.(*ssa.FreeVar); isFV && namedOf(x.Type()) == modeT {
+								return avConst(mv), true
+							}
+							if f, _ := fieldOfAddr(x.X); f != nil && isErrorType(f.Type()) {
+								return AV{Kind: "nil"}, true
+							}
+							// the stored id's text (only logged / handed back)
+							if pt, isP := x.X.Type().Underlying().(*types.Pointer); isP {
+								if bt, isB := pt.Elem().Underlying().(*types.Basic); isB && bt.Kind() == types.String {
+									if _, isAlloc := x.X.(*ssa.Alloc); !isAlloc {
+										return AV{Kind: "sym", Sym: "storedId"}, true
+									}
+								}
+							}
+						}
+					case *ssa.Parameter:
+						if namedOf(x.Type()) == modeT {
+							return avConst(mv), true
+						}
+					case *ssa.Call:
+						if x == readReset {
+							return avBool(reset), true
+						}
+						if x == readId {
+							if idNil {
+								return AV{Kind: "nil"}, true
+							}
+							return AV{Kind: "nonnil"}, true
+						}
+						if invokeNamed(x, "HasError") {
+							return avBool(false), true
+						}
+						if invokeNamed(x, "GetError") {
+							return AV{Kind: "nil"}, true
+						}
+						if cc := x.Common(); !cc.IsInvoke() && cc.StaticCallee() == nil {
+							if _, isBuiltin := cc.Value.(*ssa.Builtin); !isBuiltin && cc.Signature().Results().Len() == 2 {
+								return AV{Kind: "tuple", Tup: []AV{{Kind: "sym", Sym: "freshId"}, {Kind: "nil"}}}, true
+							}
+						}
+						if cal, _ := calleeOf(x.Common()); cal != nil && cal.Name() == "GetOrCreatePath" {
+							return AV{Kind: "nonnil"}, true
+						}
 					}
-					return AV{Kind: "nonnil"}, true
+					return AV{}, false
 				}
-				return AV{}, false
-			}, nil)
-			want := mode == "TimelineModeForceReset" || (mode == "TimelineModeInitIfEmpty" && idNil)
-			if err != "" || res[0].Kind != "const" || constant.BoolVal(res[0].C) != want {
-				okT, whyT = false, fmt.Sprintf("%s idNil=%v -> %v %s, expected %v", mode, idNil, res, err, want)
+				evs, err := DecideCalls(wr, oracle, func(ci ssa.CallInstruction) bool { return ci == setId || ci == setReset })
+				if err != "" {
+					undecided = err
+					continue
+				}
+				wrote, cleared := false, false
+				for _, ev := range evs {
+					if ev.Call == setId {
+						wrote = true
+					}
+					if ev.Call == setReset {
+						cleared = true
+					}
+				}
+				want := reset || mode == "TimelineModeForceReset" || (mode == "TimelineModeInitIfEmpty" && idNil)
+				if wrote != want || cleared != want {
+					okT, whyT = false, fmt.Sprintf("%s resetFlag=%v idStored=%v: new id written=%v flag cleared=%v, expected %v", mode, reset, !idNil, wrote, cleared, want)
+				}
 			}
 		}
 	}
-	c.Check(okT, "C17.TIMELINE", FnName(fr), p.Pos(fr.Pos()), "force-reset always, init-if-empty only without an id, default never (6 rows)", whyT)
+	if ok {
+		if okT && undecided != "" {
+			c.Undecided("C17.TIMELINE", name+": decision table", p.Pos(wr.Pos()), "the write transaction could not be evaluated row by row: "+undecided)
+		} else {
+			c.Check(okT, "C17.TIMELINE", name+": decision table", p.Pos(wr.Pos()), fmt.Sprintf("a new id is written and the reset flag cleared exactly when the flag is set, the mode forces a reset, or the mode initialises an empty database and no id is stored (%d rows)", rows), whyT)
+		}
+	}
 	c.Floor("C17.TIMELINE", 3)
 }
 
@@ -1597,6 +1695,46 @@ func ruleC08Actions(c *Ctx) {
 			c.Bad("C08.ACTIONS", "boltz.mutateContext."+w.fld, "-", "no writer found")
 		}
 	}
+}
+
+// ruleCtxIdentity: the lists of pre-commit and commit actions live in the context object the transaction
+// was started with (Db.Update runs and registers the hook on exactly those).  A context derived from it
+// (UpdateContext, GetSystemContext, a system wrapper) must be that object or forward to it: no function that
+// already has a context in hand creates another holder of action lists.
+func ruleCtxIdentity(c *Ctx, rule string) {
+	p := c.P
+	holder := p.Named("boltz", "mutateContext")
+	mcIface := p.Iface("boltz", "MutateContext")
+	n := 0
+	for _, fn := range c.prodFuncs("boltz") {
+		var allocs []*ssa.Alloc
+		for _, b := range fn.Blocks {
+			for _, in := range b.Instrs {
+				if al, ok := in.(*ssa.Alloc); ok && namedOf(al.Type()) == holder {
+					if _, isPtrToNamed := derefType(al.Type()).(*types.Named); isPtrToNamed {
+						allocs = append(allocs, al)
+					}
+				}
+			}
+		}
+		if len(allocs) == 0 {
+			continue
+		}
+		n++
+		c.Analysed(FnName(fn))
+		derived := ""
+		for _, prm := range fn.Params {
+			if namedOf(prm.Type()) == holder {
+				derived = "it already has the context " + prm.Name()
+			} else if it, isI := prm.Type().Underlying().(*types.Interface); isI && types.Identical(it, mcIface) {
+				derived = "it is given the context " + prm.Name()
+			}
+		}
+		c.Check(derived == "", rule, FnName(fn)+": creates a context", p.Pos(allocs[0].Pos()), "a context (holder of the action lists) is created only from scratch, never from another context",
+			"this function creates a new holder of pre-commit/commit action lists although "+derived+": actions registered through the derived context are appended to lists the running transaction never looks at (a failing pre-commit action does not abort, a commit action never runs)")
+	}
+	c.CallSites(n)
+	c.Floor(rule, 1)
 }
 
 // ruleC08OwnFilter: every listener registration stores its OWN change-type list (a fresh slice),
@@ -2006,4 +2144,62 @@ func ruleListenerRegistered(c *Ctx, rule, method, field string) {
 	}
 	ok := noPathAvoiding(fn, isAppend, nil)
 	c.Check(ok, rule, name, p.Pos(fn.Pos()), "every return has appended the given listener to "+field, "a return is reachable without appending the given listener to "+field+" (registration skipped or made conditional): that listener never runs")
+}
+
+// ruleC15Inherit: the symbols a child store is granted are the parent's symbol OBJECTS: they stay bound to
+// the parent store, whose entity bucket holds the shared fields.  A map symbol entered into a store's table
+// is either built there for that store, or the very object that was handed in — never a copy re-bound to
+// the receiving store (its elements would then be looked up in the child's sub-bucket, where shared fields
+// are not stored).
+func ruleC15Inherit(c *Ctx) {
+	p := c.P
+	tbl := p.Field("boltz", "BaseStore", "mapSymbols")
+	symT := p.Named("boltz", "entityMapSymbol")
+	n := 0
+	for _, fn := range c.prodFuncs("boltz") {
+		for _, b := range fn.Blocks {
+			for _, in := range b.Instrs {
+				mu, ok := in.(*ssa.MapUpdate)
+				if !ok {
+					continue
+				}
+				if f, _ := loadedField(mu.Map); !sameVar(f, tbl) {
+					continue
+				}
+				n++
+				c.Analysed(FnName(fn))
+				okV, how := false, ""
+				handedIn := false
+				for _, prm := range fn.Params {
+					if namedOf(prm.Type()) == symT {
+						handedIn = true
+					}
+				}
+				switch v := mu.Value.(type) {
+				case *ssa.Parameter:
+					okV, how = true, "the object handed in"
+				case *ssa.Alloc:
+					if namedOf(v.Type()) == symT && fn.Signature.Recv() != nil && !handedIn {
+						// built here: bound to the receiver
+						for _, r := range *v.Referrers() {
+							if fa, isFA := r.(*ssa.FieldAddr); isFA {
+								if f, _ := fieldOfAddr(fa); f != nil && f.Name() == "store" {
+									for _, fr := range *fa.Referrers() {
+										if st, isSt := fr.(*ssa.Store); isSt {
+											if mi, isMI := st.Val.(*ssa.MakeInterface); isMI && mi.X == ssa.Value(fn.Params[0]) {
+												okV, how = true, "a symbol built here for this store"
+											}
+										}
+									}
+								}
+							}
+						}
+					}
+				}
+				c.Check(okV, "C15.INHERIT", FnName(fn)+": enters a map symbol", p.Pos(mu.Pos()), "the entry is "+how, "the map symbol entered into the store's table is "+describeValue(mu.Value)+" — neither the object that was handed in nor a symbol built here for this store: an inherited symbol re-bound to the child store reads shared fields from the child's sub-bucket, where they are not stored, so every element evaluates to null")
+			}
+		}
+	}
+	c.CallSites(n)
+	c.Floor("C15.INHERIT", 2)
 }
